@@ -232,3 +232,27 @@ Proof.
   assert (c ^ 2 <> 0) by (apply pow_nonzero; assumption).
   f_equal. f_equal. field. split; assumption.
 Qed.
+
+(* two-source HOM: the two sources may be scaled INDEPENDENTLY (different pump power / deff); the rate is invariant because
+   the numerator is bilinear in (source 1, source 2) amplitudes and the denominator is norm1 (source 1) x norm2 (source 2) *)
+Lemma hom2_rate_scale_invariant c1 c2 l n1 n2 :
+  c1 <> 0 -> c2 <> 0 -> sum_list (map cnorm2 n1) <> 0 -> sum_list (map cnorm2 n2) <> 0 ->
+  hom2_rate_model (map (scale_term2 c1 c2) l) (map (cscale c1) n1) (map (cscale c2) n2) = hom2_rate_model l n1 n2.
+Proof.
+  intros H1 H2 N1 N2. unfold hom2_rate_model. rewrite !map_map.
+  rewrite (sum_list_map_scale ((c1 * c2) ^ 2) (fun x => hom2_term (scale_term2 c1 c2 x)) hom2_term).
+  2:{ intros [[[p1 p2] [q1 q2]] u]. unfold hom2_term, scale_term2, cscale, cmul, cnorm2. cbv zeta. cbn [fst snd]. ring. }
+  rewrite (sum_list_map_scale (c1 ^ 2) (fun x => cnorm2 (cscale c1 x)) cnorm2) by (intros [a b]; unfold cnorm2, cscale; cbn [fst snd]; ring).
+  rewrite (sum_list_map_scale (c2 ^ 2) (fun x => cnorm2 (cscale c2 x)) cnorm2) by (intros [a b]; unfold cnorm2, cscale; cbn [fst snd]; ring).
+  field. repeat split; assumption.
+Qed.
+
+(* with the second norm taken from source 1 (a one-identifier slip) the rate would depend on the relative power *)
+Lemma hom2_wrong_norm_not_invariant :
+  let l := ((1, 0), (1, 0), ((0, 0), (0, 0)), (1, 0)) :: nil in
+  let n := (1, 0) :: nil in
+  sum_list (map hom2_term (map (scale_term2 1 2) l)) / 4 / (sum_list (map cnorm2 n) * sum_list (map cnorm2 n))
+  <> sum_list (map hom2_term l) / 4 / (sum_list (map cnorm2 n) * sum_list (map cnorm2 n)).
+Proof.
+  cbv zeta. unfold hom2_term, scale_term2, cscale, cmul, cnorm2, sum_list. cbn [map fold_right fst snd]. lra.
+Qed.
